@@ -266,7 +266,11 @@ func (r *run) finalForwarded() {
 			continue
 		}
 		tname := r.table(0)
-		ctx, cancel := context.WithTimeout(context.Background(), 40*time.Second)
+		// generous on purpose - a bound for "never", not a performance statement: the write itself can make the
+		// leader compact its log, the follower then restores the table from a snapshot, and in a follower cluster
+		// of several nodes the shard it restores into gets its quorum only when the other nodes' table managers
+		// make their next reconcile pass (every 30 s, not configurable)
+		ctx, cancel := context.WithTimeout(context.Background(), 200*time.Second)
 		start := time.Now()
 		resp, err := r.w.kvOf(90+i, n).Put(ctx, &regattapb.PutRequest{Table: []byte(tname), Key: []byte("final"), Value: []byte(fmt.Sprintf("v-final-%d", i))})
 		cancel()
